@@ -1,10 +1,19 @@
 (** C05 — obligations over the facts regenerated from /repo (Gen/C05Facts.v). *)
 From Coq Require Import List Bool Arith ZArith String.
-Require Import Nib.C05.Model Nib.C05.Spec Nib.C05.Facts Nib.C05.Property.
+Require Import Nib.C05.Model Nib.C05.Spec Nib.C05.Facts Nib.C05.Proofs Nib.C05.Property.
 Require Import Nib.Gen.C05Facts.
 
+(** 10^12 wei per unibi, positive base fee, EIP-3529 quotient 5; the prepayment is
+    WeiToNative(EffectiveFeeWei(base fee)) taken from the signer; the refund is
+    WeiToNative((gasLimit - gasUsed) x effective price) paid by the fee collector to the sender;
+    the refund counter is capped. *)
 Theorem C05_current_facts_ok : facts_ok current_facts = true.
 Proof. vm_compute. reflexivity. Qed.
 
+(** balance check and CanTransfer run before the single fee-deducting decorator *)
 Theorem C05_current_chain_ok : chain_ok evm_ante_constructors = true.
+Proof. vm_compute. reflexivity. Qed.
+
+(** the model's conversion constant is the linked package's *)
+Theorem C05_model_constant_is_current : k_wei_per_unibi current_facts = WEI.
 Proof. vm_compute. reflexivity. Qed.
